@@ -103,6 +103,7 @@ def extension(tier):
                 if set(m) & set(p):
                     continue
                 kw = dict(m); kw.update(p)
+                kw = {k: kw[k] for k in list(ARG_ORDER) + sorted(k for k in kw if k not in ARG_ORDER) if k in kw}
                 if commensurate(kw):
                     out.append((kind, kw))
 
@@ -115,10 +116,10 @@ def extension(tier):
         typed += [{'R': 2 * 10 ** 9, 'fs': ('@i64', 16 * 10 ** 9)}, {'R': ('@f32', 1e9), 'fs': ('@f32', 8e9)}, {'sps': ('@i64', 8)},
                   {'R': ('@f64', 2e9)}, {'fs': ('@f64', 16e9)}]
     cross(typed, [{}, {'N': 3}, {'N': ('@i64', 1), 'wavelength': ('@f64', 1310e-9)}] + ([{'N': ('@i32', 3), 'alpha': 0.5}] if th else []))
-    # 2. slot counts: numpy ints, even, large (N = 0 and non-integer N are outside the statement: dw = 2*pi*fs/(N*sps) is undefined)
-    cross([{'N': ('@i64', 3)}] + ([{'N': 2}, {'N': 1024}, {'N': ('@u8', 7)}] if th else []), [{}] + rates + [{'wavelength': 1310e-9}])
+    # 2. slot counts: numpy ints, N = 2 (N = 0 and non-integer N are outside the statement: dw = 2*pi*fs/(N*sps) is undefined)
+    cross([{'N': ('@i64', 3)}] + ([{'N': 2}, {'N': ('@u8', 8)}] if th else []), [{}] + rates + [{'wavelength': 1310e-9}])
     # 3. wavelengths: the default given explicitly, a third value, a numpy float
-    cross([{'wavelength': 1550e-9}] + ([{'wavelength': 850e-9}, {'wavelength': ('@f64', 1625e-9)}] if th else []),
+    cross([{'wavelength': 1550e-9}] + ([{'wavelength': 850e-9}, {'wavelength': ('@f64', 1310e-9)}] if th else []),
           [{}, {'N': 3}, {'sps': 8, 'R': 1e9}, {'alpha': 0.5}, {'fs': 8e9}])
     # 4. commensurate rates whose float quotient / product is inexact in more ways (quotient one ulp BELOW and ABOVE the
     #    integer, quotient exact but R*sps != fs, R = fs/sps inexact)
@@ -127,12 +128,11 @@ def extension(tier):
     if th:
         inexact += [{'R': R4, 'fs': 9e9}, {'R': 1 / 100e-12, 'fs': 1 / (100e-12 / 10)}]
         inexact += [{'R': R3}, {'sps': 7, 'R': R3}, {'sps': 7, 'fs': 7 * R3}, {'fs': 7 / T3}, {'sps': 5, 'fs': 1 / (100e-12 / 5)}]
-        inexact += [{'R': 1 / T, 'fs': 1 / (T / k)} for T in (100e-12, 400e-12) for k in (11, 20)]
-        inexact += [{'R': R4, 'fs': 1 / (1e-9 / 3 / k)} for k in (5, 7, 13)] + [{'R': R3, 'fs': 1 / (T3 / k)} for k in (10, 19)]
+        inexact += [{'R': 1 / 100e-12, 'fs': 1 / (100e-12 / 11)}, {'R': R4, 'fs': 1 / (1e-9 / 3 / 7)}, {'R': R3, 'fs': 1 / (T3 / 10)}]
     cross(inexact, [{}, {'N': 3}, {'N': 1, 'alpha': 0.5}])
-    # 5. custom attributes set in several separate calls (all must disappear with clean()); thorough: updated, container-valued
+    # 5. custom attributes set in several separate calls (all must disappear with clean()); thorough (core: beta, alpha updated) adds a container-valued one
     cust = [{'beta': 'x'}, {'alpha': 0.5, 'beta': 'x'}]
-    cross(cust if not th else [{'gamma': (1, 2)}, {'gamma': None}], [{}, {'N': 3}, {'sps': 8, 'R': 1e9}, {'wavelength': 1310e-9}, {'fs': 16e9}])
+    cross(cust if not th else [{'gamma': (1, 2)}], [{}, {'N': 3}, {'sps': 8, 'R': 1e9}, {'wavelength': 1310e-9}, {'fs': 16e9}])
     # 6. positional spellings
     pos = [(8, 1e9), (8.0, 1e9), (4, None, 8e9), (None, 2e9, 16e9), (None, None, 8e9), (8, 2e9, None, 1310e-9), (8, 1e9, None, 1550e-9, 3),
            (None, None, None, 1310e-9, 1), (None, None, None, 1550e-9, None), 
@@ -155,7 +155,9 @@ def extension(tier):
 
 
 def alphabet(tier):
-    return [('clean', {})] + core_alphabet(tier) + extension(tier)
+    core = core_alphabet(tier)
+    have = {repr(a) for a in core}
+    return [('clean', {})] + core + [a for a in extension(tier) if repr(a) not in have]
 
 
 def apply(gv, act):
@@ -353,7 +355,11 @@ def initial_canon(strict=False):
 def check_step(gv, m, act, hist_txt, viol, init_strict):
     """one action on the real singleton and on the model; invariant afterwards; a clean() must give the state of a new instance"""
     given = m.step(act)
-    apply(gv, act)
+    try:
+        apply(gv, act)
+    except Exception as e:       # every action of the alphabet is a legal call (the failing half of 'failclean' is caught in apply)
+        viol.append((f'gv:call-raises:{type(e).__name__}', f'history={hist_txt}: {type(e).__name__}: {e}'))
+        return
     cleaning = act[0] in ('clean', 'failclean')
     bad = invariant(gv, m, given, after_clean=cleaning)
     if cleaning and not bad:
